@@ -229,6 +229,18 @@ func firstDiffField(exp, obs any) string {
 // Signature: op | reply classes, or the first differing observable and the situation
 // (queue full or not, newcomer's score relative to the last entry / ties present).
 func (d *drv) Signature(b *core.Behaviour, idx int, field string, exp, obs any) string {
+	if field == "panic" {
+		idx-- // the replayer reports the number of steps begun
+	}
+	if idx < 0 {
+		idx = 0
+	}
+	if idx >= len(b.Steps) {
+		idx = len(b.Steps) - 1
+	}
+	if field == "panic" {
+		return fmt.Sprintf("%s|panic", b.Steps[idx].Op())
+	}
 	s := b.Steps[idx]
 	sit := ""
 	if idx > 0 {
